@@ -11,14 +11,13 @@ import AvoVerif.Lemmas.TagsSem
 namespace Avo.Tags
 
 /-- The constraint sets for which the property is claimed.  `valid` is avo's own
-`Validate`; the three further clauses are forced by the proof, and the real
-code violates the property without each of them (witness theorems below,
-findings F8, F8c, F8d). -/
+`Validate` (which, since /repo 0ad3cb8, rejects options without terms and
+constraint lines without options: former findings F8, F8b); the two size clauses
+are forced by the proof, and the real code violates the property without each
+of them (witness theorems below, findings F8c, F8d). -/
 structure Printable (tc : Char → Bool) (cs : Constraints) : Prop where
   /-- avo accepts the set: `cs.Validate() == nil` -/
   valid : validate tc cs = true
-  /-- no option is empty (F8: `Opt()` validates, evaluates true, prints as nothing) -/
-  optsNonEmpty : ∀ c ∈ cs, ∀ o ∈ c, o ≠ []
   /-- at most 100 AND/OR operators per `// +build` line (`maxOldSize`; F8c) -/
   lineSize : ∀ c ∈ cs, termCount c ≤ maxOldSize + 1
   /-- the synthesised `//go:build` expression stays within the parser's `maxSize` (F8d) -/
@@ -26,26 +25,25 @@ structure Printable (tc : Char → Bool) (cs : Constraints) : Prop where
 
 /-- **C14, equivalence, full statement.**  For every printable constraint set and
 every tag assignment, the toolchain accepts the header avo prints and selects
-the file exactly when avo's `Evaluate` is true.  The assignment must leave the
-conventional tag `ignore` off when the set has an empty constraint line
-(finding F8b: `Any()` prints `//go:build ignore`). -/
+the file exactly when avo's `Evaluate` is true. -/
 def C14_statement (tc : Char → Bool) : Prop :=
   ∀ (cs : Constraints) (v : Str → Bool), Printable tc cs →
-    ((∀ c ∈ cs, c ≠ []) ∨ v ignoreTag = false) →
     toolchainSelects v (format tc cs) = some (evaluate tc v cs)
 
 /-- The synthesised expression is small enough for the toolchain's parser. -/
 theorem header_psize {tc : Char → Bool} (hs : SepFree tc) (c : Constraint) (cs : Constraints)
     (h : Printable tc (c :: cs)) :
     (andAll (lineExpr tc c) (cs.map (lineExpr tc))).psize ≤ maxSize := by
+  obtain ⟨_, hne, hv⟩ := (validate_iff tc (c :: cs)).mp h.valid
   have h1 := psize_le (andAll (lineExpr tc c) (cs.map (lineExpr tc)))
-  rw [leaves_header hs c cs h.valid h.optsNonEmpty] at h1
+  rw [leaves_header hs c cs hv hne] at h1
   have := h.totalSize
   omega
 
 theorem tags_equiv {tc : Char → Bool} (hs : SepFree tc) : C14_statement tc := by
-  intro cs v h hig
-  rw [format_eq hs cs h.valid h.optsNonEmpty h.lineSize]
+  intro cs v h
+  obtain ⟨hcne, hne, hv⟩ := (validate_iff tc cs).mp h.valid
+  rw [format_eq hs cs hv hne h.lineSize]
   cases cs with
   | nil => rfl
   | cons c cs =>
@@ -53,7 +51,7 @@ theorem tags_equiv {tc : Char → Bool} (hs : SepFree tc) : C14_statement tc := 
     have hp := header_psize hs c cs h
     have : ¬ (andAll (lineExpr tc c) (cs.map (lineExpr tc))).psize > maxSize := by omega
     simp only [this, if_false]
-    rw [eval_header hs v c cs h.valid h.optsNonEmpty hig]
+    rw [eval_header hs v c cs hv hne (Or.inl hcne)]
 
 /-- The text avo prints (the output of `buildtags.Format`) for a printable set:
 nothing for the empty set, otherwise the single line
@@ -62,18 +60,20 @@ theorem tags_format_text {tc : Char → Bool} (hs : SepFree tc) (cs : Constraint
     (format tc cs).text = match cs with
       | [] => []
       | c :: cs => goBuildPrefix ++ (andAll (lineExpr tc c) (cs.map (lineExpr tc))).print ++ ['\n'] := by
-  rw [format_eq hs cs h.valid h.optsNonEmpty h.lineSize]
+  obtain ⟨_, hne, hv⟩ := (validate_iff tc cs).mp h.valid
+  rw [format_eq hs cs hv hne h.lineSize]
   cases cs <;> rfl
 
 /-- **C14, round trip.**  Parsing the text avo prints for a valid constraint
 (everything after the fixed `// +build` prefix, with or without the final
 newline) gives back the same constraint; same for a single option. -/
 theorem tags_roundtrip {tc : Char → Bool} (hs : SepFree tc) (c : Constraint)
-    (hv : validConstraint tc c = true) (hne : ∀ o ∈ c, o ≠ []) :
+    (hv : validConstraint tc c = true) :
     goStringC c = plusPrefix ++ body c ++ ['\n'] ∧
     parseConstraint tc (body c) = some c ∧
     parseConstraint tc (body c ++ ['\n']) = some c := by
-  have hall : ∀ o ∈ c, validOpt tc o = true := by simpa [validConstraint] using hv
+  obtain ⟨_, hne, hv⟩ := (validConstraint_iff tc c).mp hv
+  have hall : ∀ o ∈ c, termsValid tc o = true := by simpa [optsValid] using hv
   have hf : fields (body c) = c.map optText :=
     fields_body c (fun o ho => optText_word hs o (hall o ho) (hne o ho))
   refine ⟨rfl, ?_, ?_⟩
@@ -85,8 +85,9 @@ theorem tags_roundtrip {tc : Char → Bool} (hs : SepFree tc) (c : Constraint)
     rw [this, hf]; exact parseOptions_map hs c hv hne
 
 theorem option_roundtrip {tc : Char → Bool} (hs : SepFree tc) (o : Opt)
-    (hv : validOpt tc o = true) (hne : o ≠ []) : parseOption tc (optText o) = some o :=
-  parseOption_optText hs o hv hne
+    (hv : validOpt tc o = true) : parseOption tc (optText o) = some o := by
+  obtain ⟨hne, hv⟩ := (validOpt_iff tc o).mp hv
+  exact parseOption_optText hs o hv hne
 
 /-- **C14, invalid terms.**  avo's `Term.Validate` accepts a term exactly when
 the toolchain takes it as a (possibly negated) tag instead of replacing it by
@@ -185,7 +186,7 @@ private def s (x : String) : Str := x.toList
 /-- Non-vacuity: a two-line formula with negation, digits, dot, underscore meets
 all hypotheses; the theorem then speaks about a non-trivial header. -/
 def exampleCs : Constraints := [[[s "linux", s "386"], [s "darwin", s "!cgo"]], [[s "!pure_go.1"]]]
-example : Printable asciiTag exampleCs := ⟨by decide, by decide, by decide, by decide⟩
+example : Printable asciiTag exampleCs := ⟨by decide, by decide, by decide⟩
 example : (format asciiTag exampleCs).text = s "//go:build ((linux && 386) || (darwin && !cgo)) && !pure_go.1\n" := by decide
 example : toolchainSelects (fun t => t == s "darwin") (format asciiTag exampleCs) = some true := by decide
 example : parseConstraint asciiTag (s " linux,386 darwin,!cgo\n") = some [[s "linux", s "386"], [s "darwin", s "!cgo"]] := by decide
@@ -193,29 +194,37 @@ example : validTerm asciiTag (s "!a.b_1") = true ∧ validTerm asciiTag (s "!!x"
     validTerm asciiTag (s "") = false ∧ validTerm asciiTag (s "!") = false ∧
     validTerm asciiTag (s "a-b") = false ∧ validTerm asciiTag (s "a b") = false := by decide
 
-/-- **F8 (genuine defect).**  `Any(Opt("a"), Opt())` validates, avo evaluates it
-to true under the empty assignment, the printed header is `//go:build a`, which
-the toolchain evaluates to false: the `optsNonEmpty` hypothesis cannot be dropped. -/
-theorem tags_equiv_fails_empty_option :
+/-- **F8 (fixed in /repo 0ad3cb8; regression statement).**  `Any(Opt("a"), Opt())`
+is rejected by `Validate`.  Why it must be: avo evaluates it to true under the
+empty assignment while the printed header is `//go:build a`, which the
+toolchain evaluates to false. -/
+theorem empty_option_invalid :
     let cs : Constraints := [[[s "a"], []]]
     let v : Str → Bool := fun _ => false
-    validate asciiTag cs = true ∧ evaluate asciiTag v cs = true ∧
+    validate asciiTag cs = false ∧ evaluate asciiTag v cs = true ∧
     (format asciiTag cs).text = s "//go:build a\n" ∧
     toolchainSelects v (format asciiTag cs) = some false := by decide
 
-/-- F8, round-trip side: the empty option is lost by print-then-parse. -/
-theorem tags_roundtrip_fails_empty_option :
+/-- F8, round-trip side: an empty option would be lost by print-then-parse. -/
+theorem empty_option_lost_by_roundtrip :
+    validConstraint asciiTag [[s "a"], []] = false ∧
     parseConstraint asciiTag (body [[s "a"], []]) = some [[s "a"]] := by decide
 
-/-- **F8b.**  An empty constraint `Any()` validates and avo evaluates it to false
-under every assignment; it prints `//go:build ignore`, which the toolchain
+/-- **F8b (fixed in /repo 0ad3cb8; regression statement).**  The empty constraint
+`Any()` is rejected by `Validate`.  Why it must be: avo evaluates it to false
+under every assignment, but it prints `//go:build ignore`, which the toolchain
 selects under `-tags ignore`. -/
-theorem tags_equiv_fails_empty_constraint :
+theorem empty_constraint_invalid :
     let cs : Constraints := [[]]
     let v : Str → Bool := fun t => t == ignoreTag
-    validate asciiTag cs = true ∧ evaluate asciiTag v cs = false ∧
+    validate asciiTag cs = false ∧ evaluate asciiTag v cs = false ∧
     (format asciiTag cs).text = s "//go:build ignore\n" ∧
     toolchainSelects v (format asciiTag cs) = some true := by decide
+
+/-- `validate` implies what the proof needs: no empty line, no empty option. -/
+theorem valid_nonempty (tc : Char → Bool) (cs : Constraints) (h : validate tc cs = true) :
+    (∀ c ∈ cs, c ≠ []) ∧ (∀ c ∈ cs, ∀ o ∈ c, o ≠ []) :=
+  ⟨((validate_iff tc cs).mp h).1, ((validate_iff tc cs).mp h).2.1⟩
 
 /-- **F8c.**  A single line with 102 terms (101 operators) validates and avo
 evaluates it to false under the empty assignment, but go/format refuses to
